@@ -192,6 +192,15 @@ def enum_sweep(tier):
             yield {"n": n, "m": m, "kind": kind, "seed": n * 4 + i, "backend": "numpy" if (n + i) % 3 == 0 else "default"}
 
 
+def enum_long(tier):
+    """Lengths of real time series (the short sweeps cannot show size-dependent index or accumulation faults)."""
+    ns = [50_000, 65_536, 131_071, 1_000_000, 1_048_576] if tier == "quick" else \
+        [50_000, 65_536, 131_071, 500_009, 1_000_000, 1_048_576, 2_000_003, 4_194_304, 8_388_608]
+    for i, n in enumerate(ns):
+        for j, kind in enumerate(("normal", "dyn")):
+            yield {"n": n, "m": [1, 7, 64][(i + j) % 3], "kind": kind, "seed": 5000 + 2 * i + j, "backend": "numpy" if (i + j) % 4 == 0 else "default"}
+
+
 def strat_random(tier):
     nmax = 2000 if tier == "quick" else 6000
 
@@ -209,6 +218,7 @@ def subchecks(tier):
     return [
         SubCheck("length_sweep", check, enumerate=enum_sweep, exhaustive=(tier == "thorough"),
                  shards={"quick": 6, "thorough": 16}),
+        SubCheck("long", check, enumerate=enum_long, shards={"quick": 5, "thorough": 9}, budget_s={"quick": 250, "thorough": 1500}),
         SubCheck("random", check, strategy=strat_random,
                  examples={"quick": 1200, "thorough": 60000}, shards={"quick": 4, "thorough": 16}),
     ]
